@@ -278,6 +278,23 @@ func runC04Case(r *ev.Run, c c04Case) c04Result {
 				if sev.Reason != reason {
 					continue
 				}
+				// the code and class the error reports are those of the reply to that command (for RCPT: of the last refusal),
+				// not of a reply to another command of the transaction (the clean-up RSET may be refused as well)
+				want, unanswered := 0, false
+				for k, cr := range cmds {
+					if owner[k] == i && cr.Verb == verb && cr.ReplyCode >= 400 {
+						want = cr.ReplyCode
+					}
+					if owner[k] == i && cr.Verb == verb && cr.ReplyCode < 200 {
+						unanswered = true // a command of that step got no reply at all (connection dropped): the last failure is no reply
+					}
+				}
+				if want != 0 && !unanswered {
+					r.Count("reported_reply_codes_compared", 1)
+					if sev.ErrorCode() != want || sev.IsTemp() != (want < 500) {
+						viol("attribution:code-of-other-reply:"+verb, fmt.Sprintf("message %d failed at %s, whose reply was %d; its error reports code %d, temporary=%t: %s | transcript: %s", i, verb, want, sev.ErrorCode(), sev.IsTemp(), es, res.transcript), cmds)
+					}
+				}
 				for _, tk := range tokenRe.FindAllString(es, -1) {
 					// (the reply to the RSET that cleans up after the failed step is reported along with it)
 					if v, known := tokVerb[tk]; known && v != verb && v != "RSET" {
